@@ -1,8 +1,10 @@
 package run
 
 import (
+	"errors"
 	"fmt"
 	"reflect"
+	"runtime"
 	"time"
 	"unsafe"
 
@@ -19,6 +21,18 @@ type ExecErr struct {
 }
 
 func (e *ExecErr) Error() string { return fmt.Sprintf("planned failure of %s#%d", e.F, e.N) }
+
+// Unwrap: half of the planned failures wrap a lower-level cause of the user's own, as
+// fmt.Errorf("load config: %w", fs.ErrNotExist) does. The error the function returned stays the
+// root cause as far as dig is concerned (RootCause stops at the first error that is not dig's).
+func (e *ExecErr) Unwrap() error {
+	if (len(e.F)+int(e.F[len(e.F)-1])+e.N)%2 == 1 {
+		return errLowerCause
+	}
+	return nil
+}
+
+var errLowerCause = errors.New("lower-level cause of a planned failure")
 
 // PanicVal is the value a user function panics with when its planned outcome is "panic".
 type PanicVal struct {
@@ -48,10 +62,24 @@ type innerErr struct{ err error }
 func (e *innerErr) Error() string { return "nested dig call failed: " + e.err.Error() }
 func (e *innerErr) Unwrap() error { return e.err }
 
-// panicValue is the Go value execution n of f panics with: both shapes occur.
+// PanicRtVal is the third shape: a runtime.Error (what a nil-map write or an index out of
+// range panics with).
+type PanicRtVal struct{ PanicVal }
+
+func (p PanicRtVal) Error() string {
+	return fmt.Sprintf("runtime error: planned panic of %s#%d", p.F, p.N)
+}
+func (PanicRtVal) RuntimeError() {}
+
+var _ runtime.Error = PanicRtVal{}
+
+// panicValue is the Go value execution n of f panics with: all shapes occur.
 func panicValue(f string, n int) interface{} {
-	if (len(f)+int(f[len(f)-1])+n)%2 == 0 {
+	switch (len(f) + int(f[len(f)-1]) + n) % 3 {
+	case 0:
 		return PanicErrVal{PanicVal{f, n}, innerDigErr}
+	case 1:
+		return PanicRtVal{PanicVal{f, n}}
 	}
 	return PanicVal{f, n}
 }
@@ -62,6 +90,8 @@ func asPanicVal(p interface{}) (PanicVal, bool) {
 	case PanicVal:
 		return v, true
 	case PanicErrVal:
+		return v.PanicVal, true
+	case PanicRtVal:
 		return v.PanicVal, true
 	}
 	return PanicVal{}, false
@@ -119,7 +149,7 @@ func paramTag(p cat.Param) string {
 	k := univ.ParseKey(p.K)
 	tag := ""
 	if k.Name != "" {
-		tag += fmt.Sprintf(`name:%q `, k.Name)
+		tag += fmt.Sprintf(`name:%q `, univ.RealName(k.Name))
 	}
 	if p.M == "opt" {
 		tag += `optional:"true" `
@@ -164,7 +194,7 @@ func resultTag(kind string, r cat.Result) string {
 	k := univ.ParseKey(r.Ks[0])
 	switch {
 	case r.M == "one" && k.Name != "":
-		return fmt.Sprintf(`name:%q`, k.Name)
+		return fmt.Sprintf(`name:%q`, univ.RealName(k.Name))
 	case r.M == "grp":
 		return fmt.Sprintf(`group:%q`, k.Group)
 	case r.M == "flat":
@@ -272,7 +302,7 @@ func newLayout(fn *cat.Fn) (*layout, error) {
 			typ = resultType(fn.Kind, r)
 		}
 		if k.Name != "" {
-			l.opts = append(l.opts, dig.Name(k.Name))
+			l.opts = append(l.opts, dig.Name(univ.RealName(k.Name)))
 		}
 		if r.M == "grp" {
 			l.opts = append(l.opts, dig.Group(k.Group))
@@ -403,6 +433,12 @@ func (l *layout) make(id string, n int, zero bool) []reflect.Value {
 		if r.M == "flat" || (l.fn.Kind == "dec" && r.M == "grp") {
 			s := reflect.MakeSlice(typ, 0, r.N)
 			for e := 1; e <= r.N; e++ {
+				if e == 1 && l.fn.Enc.NilRes && r.M == "flat" {
+					// a nil member (a nil interface if the group is one of interfaces) is a
+					// member like any other
+					s = reflect.Append(s, reflect.Zero(typ.Elem()))
+					continue
+				}
 				s = reflect.Append(s, univ.New(ct, univ.Prov{F: id, N: n, I: idx + 1, E: e}).Convert(typ.Elem()))
 			}
 			return s
